@@ -33,18 +33,27 @@ CHECKS = {
  "C13": ("DESIGN.md 5.13",
   "Theorems (unbounded): for any number of connections, any requests, any interleaving: the connection state (database, authorization, user) seen by every handler call on connection i equals the fold of connStep over connection i's own earlier requests — independent of the schedule, other connections, handler answers and the configuration table; defaults; user commands never change it; SELECT changes the database only on success. Tie: all interleavings of two connections (bounded) + random histories over 2..8 connections, handler double probing db, authorization and per-connection user data.",
   "requests are released one at a time in the tie; truly concurrent execution is C14/C16's workload"),
+ "C09": ("DESIGN.md 5.9",
+  "Theorems: served => handshake verified and (no rule or the LEAF certificate carries the name) (decision logic stated outright); a name on an intermediate is not enough; unverified never served; a rejected client has no command executed; no sequence of client attempts (any verdicts, stalls, garbage, any number) stops the server and a good client is served afterwards; the property's credential table decided. Tie: complete enumeration of configurations x credentials x positions on real TLS sockets with a generated CA / foreign CA / intermediate / expired / wrong-name certificates; handler-call counter shows no command of a rejected client ran.",
+  "crypto/tls and crypto/x509 are trusted for the verdict `verified`; partial in that sense"),
  "C10": ("DESIGN.md 5.10",
   "Theorems (unbounded): for all 28 commands of the positional grammar every ill-formed variant (required position omitted, null bulk, non-integer/fractional/overflowing token, non-float, empty list, null in list) is rejected with zero handler calls and unchanged state (table-wide); dangling key/value and score/member halves; SET option conflicts anywhere after any admissible prefix; bad/non-positive/missing expiry; SETEX; ZRANGE fractional index; STRLEN without key. Tie: systematic enumeration of mutation classes through the hook, oracle = no call, error reply, following PING answered.",
   "option grammars of SCAN/ZRANGEBYSCORE LIMIT are covered by the tie only"),
  "C11": ("DESIGN.md 5.11",
   "Theorems (unbounded): every strict prefix (every byte offset) of every request (non-empty array of non-null bulks) parses to an error, never a value, also over any segmentation of the transport; a stream of complete values followed by a partial request yields exactly the trace of the complete values (same calls, same replies, once each); the connection is released. Tie: every byte offset of generated pipelines as end of stream.",
   "half-close vs full close are the same event (end of stream) for the modelled transport"),
+ "C15": ("DESIGN.md 5.15",
+  "Theorems (unbounded): an invariant of the lifecycle transition system (Start, the four phases of Stop, accept, accept-loop exit, connection end) proved for EVERY schedule: while serving every enabled port has an open listener of the current generation and a live accept loop (an accept succeeds); after Stop returned no listener of any generation is open, no accept loop, no connection; registered => goroutine alive and socket open; an exiting accept loop of any generation touches neither listeners nor fields; Stop waits for loops and connection goroutines. Tie: every Start/Stop/Restart sequence (length <=4/6) on a real loopback server with observations after each call (registry, ports bindable, framework goroutines, clients on every port, idle clients across calls).",
+  "interleavings inside Stop are abstracted by the transition system and checked structurally (regenerated facts: stop order, loops close their own listener); OS socket semantics trusted"),
  "C17": ("DESIGN.md 5.17",
   "Theorems (unbounded): the executable glob matcher decides the declarative Redis glob semantics (Matches) for every pattern and key; the compiled regular expression is exactly anchors + one token per pattern character with every non-*/? character quoted; under the token semantics it matches exactly the glob's keys; SCAN MATCH hands the handler the same expression KEYS compiles. Tie: glob.Compile/MatchString on the complete enumeration of patterns (len<=4/5) x keys (len<=3/4) over {a,b,*,?,.,+,(,|,$} and random longer ones, against an independent recursive matcher.",
   "Go regexp trusted for three token shapes; characters are bytes in the model (ASCII in the tie)"),
  "C18": ("DESIGN.md 5.18",
   "Theorems (unbounded, of the reference store the example store is tied to): values byte for byte; DEL/EXISTS/RENAME (onto itself, moving, NX)/TYPE reflect the written keys; list push/pop/range order; reads do not create keys, emptied containers are removed; SADD keeps sets duplicate-free with exactly the union as members; ZADD leaves exactly one entry per member. Tie: the real example server through the hook vs the reference store, reply for reply, on all programs of length <=2/3 per data type over menus of 15..38 commands and random programs of 1..40 commands.",
   "each key one data type, no expiry, scores from an exactly representable pool; program space of DESIGN.md Appendix B"),
+ "C19": ("DESIGN.md 5.19",
+  "Theorems: every way out of the connection loop runs the two deferred releases; a connection goroutine's end leaves it unregistered, closed, dead; Stop releases everything in every reachable state of the lifecycle transition system; each ending mode removes exactly that connection; a failed TLS handshake or rejected certificate leaves nothing behind; any number of connect/end cycles with any endings returns the registry to its baseline (induction over the cycle list). Tie: every ending mode x pipeline position x plain/TLS, every TLS fault, stalled handshakes, Stop with connections in flight, churn of 150/10^4 cycles, observing registry, framework goroutines and bindable ports.",
+  "descriptor tables, TCP reset semantics and goroutine scheduling are runtime: partial (control flow proved, effect observed)"),
  "C20": ("DESIGN.md 5.20",
   "Theorems (unbounded): for every input, server state and handler script, unless the run ends in a recovered panic, the span events of the whole connection satisfy the span discipline (depth machine: one root per request, children only under an open root, FinishSpan pops an open child, root finished once with no child open); every executor including composed ones is balanced on every returning path. Tie: recording tracer double on the library's own span context.",
   "the go-tracing common span context is used as is; runs ending in a recovered panic leave spans open (C07)"),
